@@ -68,12 +68,14 @@ variants = {
     "hs-full": dict(Hs=["h1"], Rd=["r1"], Cl=["k1"], PeerScript="PS_hs_hs_cn"),
 }
 QUICK = [k for k in variants if k not in ("data-rwk", "hs-full", "data-fatal", "data-srvhs", "data-dl", "data-rkk", "hs-hkk", "data-bad", "data-warn", "hs-hrk")]
+NOLIVE = ["data-dl", "data-rkk", "data-rwk", "data-fatal", "data-srvhs", "hs-full", "hs-hkk"]
 LIVEQUICK = ["hs-hk", "hs-fatal", "hs-cn", "data-dl13"]
 for k, v in variants.items():
     tier = "quick" if k in QUICK else "thorough"
     write("Lifecycle.%s.safe.%s.cfg" % (k, tier), v, "safe")
     tier = "quick" if k in LIVEQUICK else "thorough"
-    write("Lifecycle.%s.live.%s.cfg" % (k, tier), v, "live")
+    if k not in NOLIVE:      # liveness checking runs at about 1 500 states/s: only instances up to ~170 000 states
+        write("Lifecycle.%s.live.%s.cfg" % (k, tier), v, "live")
 # small data-phase instances for the quick liveness run
 write("Lifecycle.data-rk-s.live.thorough.cfg", dict(D, Rd=["r1"], Cl=["k1"], PeerScript="PS_cn"), "live")
 write("Lifecycle.data-wk-s.live.thorough.cfg", dict(D, Wr=["w1"], Cl=["k1"], PeerScript="PS_none"), "live")
